@@ -2,6 +2,7 @@
 //! Code: mahf::components::misc::cro::{SynthesisUpdate,OnWallIneffectiveCollisionUpdate,DecompositionUpdate,IntermolecularIneffectiveCollisionUpdate}::execute, Molecule::{new,update_best}, ChemicalReaction, EnergyBuffer
 //! Out: populations above 3; energies above 2^20; two EQUAL individuals in the population (the reactant is located by equality, the statement does not cover duplicates); for the three reactions that split energy with a random factor (x*alpha and x*(1-alpha), two symbolic 64-bit products) conservation up to rounding is NOT decided — only that each part is non-negative and that a rejected reaction changes no energy; synthesis (no random factor) is decided bit-exactly
 //! Out: (tiers) decomposition and the intermolecular collision need 18 min of SAT each and are thorough-tier; the quick tier decides synthesis (3 reactant orders), the on-wall collision and the layout errors
+//! Reclimit: mahf::state::(registry::)?StateRegistry::<.*>::find(_mut)?::<.*>=2
 //! Assume: inductive one-step from an arbitrary consistent CRO state: population of unique tagged individuals with symbolic objective values in [0, 2^20], one molecule per individual with symbolic kinetic energy in [0, 2^20], symbolic buffer in [0, 2^20], stack = [population, reactants, products]
 use mahf::components::misc::cro::{
     ChemicalReaction, DecompositionUpdate, EnergyBuffer, IntermolecularIneffectiveCollisionUpdate, Molecule,
